@@ -828,6 +828,21 @@ pub unsafe extern "C" fn poll(fds: *mut libc::pollfd, nfds: c_ulong, timeout: c_
                     return fin(t, Call::Poll, [timeout as i64, mask_summary, blocked as i64], Ok(cnt)) as c_int;
                 }
                 if eintr_fault(s, t, 1) {
+                    // the signal arrives some way into the wait, not at its first instant: a wait
+                    // that is simply started over after the interruption then overshoots its limit
+                    if let Some(d) = deadline {
+                        let left = d.saturating_sub(s.k.now);
+                        let part = left / 4 * (1 + s.ch.choose(3) as u64);
+                        if part > 0 {
+                            let w: Vec<(i32, i16)> = v.iter().map(|p| (p.fd, p.events)).collect();
+                            let mid = s.k.now + part;
+                            if let Woke::Ready = sched_block(t, Wait::Poll(w), Some(mid)) {
+                                // something became ready first: no interruption after all
+                                blocked = true;
+                                continue;
+                            }
+                        }
+                    }
                     return fin(t, Call::Poll, [timeout as i64, 0, blocked as i64], Err(libc::EINTR)) as c_int;
                 }
                 blocked = true;
